@@ -23,6 +23,10 @@ SPEC = {
         # "the latest notification for its group never omits it": updates of one alert reach its group in submission order also
         # under a backlog of the ingestion workers (C14's engine)
         {"name": "workers", "pkg": "./workers", "search_cases": 4000, "quick_cases": 2500, "only": ["final_is_last_submitted"]},
+        # a route is muted by its own time intervals exactly when the calendar says so (C15's engine) …
+        {"name": "timeint", "pkg": "./timeint", "search_cases": 3000, "quick_cases": 1500, "only": ["contains_iff_spec", "mute_gate", "active_gate"]},
+        # … and a delivery that times out on its own per-request timeout is retried inside the flush (C20's engine)
+        {"name": "webhook", "pkg": "./webhook", "search_cases": 40, "timeout_quick": 300, "only": ["request_timeout_retried"]},
     ],
     "rule": "random alert timelines (4 alerts in 2 groups: fire, heartbeat, explicit resolve, short time-outs, re-fire; silences created/expired) through the REAL mem.Alerts provider + Dispatcher + PipelineBuilder.New pipeline + nflog assembled as app/reloader.go does, under synctest virtual time; 1-2 integrations (send_resolved on/off) with scripted outcomes (ok / recoverable / unrecoverable / hang, latencies up to and beyond the flush deadline so that deliveries are in flight while alerts re-fire), log GC, dispatcher restarts (config reload); a recording stage observes every flush (tick, wall, alerts handed over, outcome, log entries); the driver predicts ticks, flush contents, sends, log entries, group deletion exactly (delivery instants are trace inputs) and evaluates the property predicates on the implementation's events; non-trivial = hits a tagged branch; distinct = distinct hash of the case's lines",
     "assumptions": [
